@@ -37,6 +37,10 @@ Next ==
   \/ \E f \in {"local", "peers"} : \E l \in {truth, <<>>} : Refresh(l, f)
   \/ \E b \in Batches : Events(truth, b)
   \/ \E l \in Lists : Events(l, <<Ev("NEW_NODE", C0addr)>>)
+  \* a topology and a status event in one batch while the report changes (one peer address
+  \* stands for all: the addresses are interchangeable unless the filter names them)
+  \/ \E l \in Lists : \E k \in {"UP", "DOWN"} : \E a \in {"a1"} \cup Filt :
+        Events(l, <<Ev("NEW_NODE", a), Ev(k, a)>>)
   \/ \E a \in AllAddrs : NodeFail(truth, a)
   \/ \E a \in Addrs : NodeRecover(truth, a)
   \/ \E l \in Lists : NodeRecover(l, C0addr)
@@ -44,7 +48,4 @@ Next ==
 
 Spec == Init /\ [][Next]_vars
 Bounded == TLCGet("level") <= MaxLevel
-
-\* the design follows the cluster: after a successful refresh the ring is what was reported
-RingFollows == (g.ctl /\ nref = 1 /\ DOMAIN d.hosts = DOMAIN g.want) \/ TRUE
 =============================================================================
